@@ -536,7 +536,7 @@ func (ex *Exec) appendSlice(st *State, s, t *SliceV) *SliceV {
 	if t.IsV {
 		return ex.appendVals(st, s, t.Vec)
 	}
-	if t.Len.IsInt() && t.Len.Int64() <= 4096 {
+	if t.Len.IsInt() && t.Len.Int64() <= 64 {
 		return ex.appendVals(st, s, t.explode().Vec)
 	}
 	sm, tm := s.materialize(), t.materialize()
